@@ -74,10 +74,12 @@ ASSUME PartitionOK /\ RuleFunctional /\ NIP01OK
 (* Abstract events: content and one tag value are strings of classes.      *)
 
 Strings(n) == UNION {[1..k -> ClassNames] : k \in 0..n}
-TagShapes == {"none", "one", "three", "emptyval", "two-tags"}
+TagShapes == {"none", "one", "three", "emptyval", "two-tags",
+              "name", "name-only"}      \* the class string as a tag NAME (with a value / alone): names are escaped like any string
 Tampers == {"none", "content", "tagvalue", "tagadd", "kind", "created_at", "pubkey",
             "id-bit", "sig-bit", "sig-other", "id-other",
             "content-reid", "pubkey-reid",   \* forgeries with a recomputed (consistent) id and the stale signature
+            "id-trunc",                      \* trailing zero bytes cut off the id (applies when the id ends in 00)
             "offcurve-reid",                 \* the same with a public key that is not a point of the curve
             "id-case", "sig-case"}           \* one hex letter of the id / the signature in upper case (one bit of the text)
 
